@@ -15,10 +15,10 @@ class Env:
         self.tmp = os.path.join(V.BUILD, "tmp", "%s-%d" % (run.pid, os.getpid()))
         shutil.rmtree(self.tmp, ignore_errors=True)
         os.makedirs(self.tmp)
-        self.gate = V.proof_gate(GROUP, propfile, force=False)
+        self.gate = V.proof_gate(GROUP, propfile, force=False, chk=(run.tier == "thorough" and os.environ.get("VERIF_COQCHK", "1") == "1"))
         run.coverage.update(obligations=self.gate["obligations"], discharged=self.gate["discharged"],
                             checker_cmd="make -C coq/fs (coq_makefile, full .vo) ; coqc %s ; Print Assumptions" % propfile,
-                            theorems=self.gate["theorems"], axioms=self.gate["axioms"],
+                            theorems=self.gate["theorems"], axioms=self.gate["axioms"], coqchk=self.gate.get("coqchk", "quick tier: not run"),
                             trusted_base=V.TRUSTED_BASE_COMMON + [
                                 "modelled (hand-written Gallina transcription, coq/fs/Fs*.v): blockdevice.rs cache, fat/volume.rs, fat/bpb.rs, fat/info.rs, fat/ondiskdirentry.rs, filesystem/{files,directory,filename,timestamp,handles}.rs, volume_mgr.rs; RefCell = boolean lock; heapless::Vec = list; TimeSource/BlockDevice = harness oracles (clock formula, fault schedule by device-call index, failed reads scribble 0xAA)",
                                 "spec-side artefacts that are ours: gen/fatimg.py formatter, the deciders in coq/fs/Spec*.v"])
